@@ -6,6 +6,7 @@ emitted only under ``not sandboxed``, no other guard); SandboxedEnvironment.call
 is_safe_callable before delegating and raises SecurityError otherwise; is_safe_callable reads
 both markers; a who-may-call rule: library code reachable from a render invokes
 ``Context.call`` only on callables that are not template-controlled.
+Also: no nodes.*.as_const calls a value obtained by folding a child (folding never runs a template-written callee).  
 Not decided: calls made by data objects themselves.
 """
 
